@@ -193,7 +193,7 @@ func cmdCheck(args []string) int {
 			}
 		}
 	}
-	header := e.u.header()
+	header := e.u
 	timeout := 10 * time.Second
 	if *tier == "thorough" {
 		timeout = 60 * time.Second
